@@ -35,11 +35,6 @@ Definition kvSync (s : kvst) (up dp : world) : Prop :=
 Definition Sync (q : seqst) (up dp : world) : Prop :=
   ipInv (q_ip q) up dp ∧ kvSync (q_kv q) up dp ∧ typed up ∧ typed dp ∧ closed dp.
 
-(* a route that stays keeps alive the VTEP it needed so far (restriction under which the phase
-   order of the code as it stands is safe; not needed for the repaired order) *)
-Definition no_retarget (dp up : world) : Prop :=
-  ∀ c v0, c.1 = KRoute → w_kv dp !! c = Some v0 → is_Some (w_kv up !! c) → Forall (present up) (v_refs v0).
-
 Definition kv1 : list phase := [PUpd KPol; PUpd KProf; PUpd KEp; PDel KEp; PDel KProf; PDel KPol].
 Definition kv2 (late : bool) : list phase :=
   [PDel KSA; PUpd KSA; PDel KNS; PUpd KNS] ++ vxlan_phases late ++
